@@ -8,27 +8,27 @@ open Bee2V.Gen.C12
 
 /-! ### an independent trial-division primality test -/
 
-/-- try d, d + 1, … while d² ≤ n -/
-def tdLoop (n : Nat) : Nat → Nat → Bool
+/-- try d, d + 1, … while d² ≤ n  (named `sieveTdLoop`: LemmasPri16 has its own `tdLoop`) -/
+def sieveTdLoop (n : Nat) : Nat → Nat → Bool
   | 0, _ => true
-  | fuel + 1, d => if d * d > n then true else if n % d = 0 then false else tdLoop n fuel (d + 1)
+  | fuel + 1, d => if d * d > n then true else if n % d = 0 then false else sieveTdLoop n fuel (d + 1)
 
-def isPrimeTD' (n : Nat) : Bool := decide (2 ≤ n) && tdLoop n n 2
+def isPrimeTD' (n : Nat) : Bool := decide (2 ≤ n) && sieveTdLoop n n 2
 
-theorem tdLoop_iff (n : Nat) : ∀ fuel d, n < (d + fuel) * (d + fuel) →
-    (tdLoop n fuel d = true ↔ ∀ e, d ≤ e → e * e ≤ n → n % e ≠ 0) := by
+theorem sieveTdLoop_iff (n : Nat) : ∀ fuel d, n < (d + fuel) * (d + fuel) →
+    (sieveTdLoop n fuel d = true ↔ ∀ e, d ≤ e → e * e ≤ n → n % e ≠ 0) := by
   intro fuel
   induction fuel with
   | zero =>
     intro d h
-    simp only [tdLoop, true_iff]
+    simp only [sieveTdLoop, true_iff]
     intro e he hee
     have := Nat.mul_le_mul he he
     simp only [Nat.add_zero] at h
     omega
   | succ fuel ih =>
     intro d h
-    simp only [tdLoop]
+    simp only [sieveTdLoop]
     by_cases h1 : d * d > n
     · simp only [h1, if_true, true_iff]
       intro e he hee
@@ -53,7 +53,7 @@ theorem isPrimeTD'_iff (n : Nat) : isPrimeTD' n = true ↔ 2 ≤ n ∧ ∀ d, 2 
   have hfuel : n < (2 + n) * (2 + n) := by
     have : (2 + n) * 1 ≤ (2 + n) * (2 + n) := Nat.mul_le_mul_left _ (by omega)
     omega
-  simp only [isPrimeTD', Bool.and_eq_true, decide_eq_true_eq, tdLoop_iff n n 2 hfuel]
+  simp only [isPrimeTD', Bool.and_eq_true, decide_eq_true_eq, sieveTdLoop_iff n n 2 hfuel]
   constructor
   · rintro ⟨h2, hall⟩
     refine ⟨h2, ?_⟩
@@ -136,5 +136,276 @@ theorem base_complete (n : Nat) (h3 : 3 ≤ n) (hn : n ≤ 8167) (hp : isPrimeTD
 theorem base_ge_3 (i : Nat) (h : i < 1024) : 3 ≤ base[i]! := by
   rw [base_getElem! i h]
   exact ((base_mem_iff _).1 (List.getElem_mem _)).1
+
+/-! ### C2: `_prods[]` is aligned with `_base[]` -/
+
+/-- base[i] · base[i+1] ⋯ base[i+n-1] -/
+def baseProd (i : Nat) : Nat → Nat
+  | 0 => 1
+  | n + 1 => baseProd i n * base[i + n]!
+
+/-- the alignment statement: walking through the product table from base index `i`, every entry is the product
+    of the next `num` base primes, fits a W-bit word, and the walk stays inside the table -/
+def AlignedAt (W : Nat) : List (Nat × Nat) → Nat → Prop
+  | [], _ => True
+  | (prod, num) :: rest, i =>
+    i + num ≤ 1024 ∧ prod < 2 ^ W ∧ prod = baseProd i num ∧ AlignedAt W rest (i + num)
+
+namespace SieveAux
+
+def prodL (l : List Nat) : Nat := l.foldl (· * ·) 1
+
+/-- linear-time checker: `bs` = the part of the base not yet consumed -/
+def alignedL (W : Nat) : List (Nat × Nat) → List Nat → Bool
+  | [], _ => true
+  | (prod, num) :: rest, bs =>
+    ((bs.take num).length == num) && decide (prod < 2 ^ W) && (prod == prodL (bs.take num)) &&
+      alignedL W rest (bs.drop num)
+
+theorem take_succ_drop (i n : Nat) (h : i + n < 1024) :
+    (base.toList.drop i).take (n + 1) = (base.toList.drop i).take n ++ [base[i + n]!] := by
+  have hlen : i + n < base.toList.length := by simpa [base_size] using h
+  rw [List.take_add_one, List.getElem?_drop, List.getElem?_eq_getElem hlen, base_getElem! (i + n) h]
+  rfl
+
+theorem prodL_take_drop (i : Nat) : ∀ n, i + n ≤ 1024 → prodL ((base.toList.drop i).take n) = baseProd i n := by
+  intro n
+  induction n with
+  | zero => intro _; rfl
+  | succ n ih =>
+    intro h
+    rw [take_succ_drop i n (by omega), baseProd, ← ih (by omega)]
+    simp [prodL, List.foldl_append]
+
+theorem alignedL_sound (W : Nat) : ∀ l i, i ≤ 1024 → alignedL W l (base.toList.drop i) = true → AlignedAt W l i := by
+  intro l
+  induction l with
+  | nil => intro i _ _; trivial
+  | cons e rest ih =>
+    intro i hi h
+    obtain ⟨prod, num⟩ := e
+    simp only [alignedL, Bool.and_eq_true, beq_iff_eq, decide_eq_true_eq, List.length_take, List.length_drop,
+      List.drop_drop] at h
+    obtain ⟨⟨⟨h1, h2⟩, h3⟩, h4⟩ := h
+    have hlen : base.toList.length = 1024 := by simpa using base_size
+    have hin : i + num ≤ 1024 := by omega
+    refine ⟨hin, h2, ?_, ih (i + num) hin h4⟩
+    rw [h3, prodL_take_drop i num hin]
+
+end SieveAux
+
+/-- the Bool checker over the generated tables (linear walk) -/
+def prodsAligned (prods : Array (Nat × Nat)) (W : Nat) : Bool := SieveAux.alignedL W prods.toList base.toList
+
+set_option maxRecDepth 1000000 in
+theorem prods_aligned_16 : prodsAligned (prodsW 16) 16 = true := by decide +kernel
+set_option maxRecDepth 1000000 in
+theorem prods_aligned_32 : prodsAligned (prodsW 32) 32 = true := by decide +kernel
+set_option maxRecDepth 1000000 in
+theorem prods_aligned_64 : prodsAligned (prodsW 64) 64 = true := by decide +kernel
+
+theorem prods_aligned (W : Nat) (hW : W = 16 ∨ W = 32 ∨ W = 64) : AlignedAt W (prodsW W).toList 0 := by
+  apply SieveAux.alignedL_sound W _ 0 (by omega)
+  rcases hW with h | h | h <;> subst h
+  · exact prods_aligned_16
+  · exact prods_aligned_32
+  · exact prods_aligned_64
+
+/-! ### C3: priBaseMod computes all residues a mod base[i] -/
+
+namespace SieveAux
+
+/-- the accumulator after `i` residues (newest first) -/
+def modsRev (a i : Nat) : List Nat := ((List.range i).map (fun i => a % base[i]!)).reverse
+
+theorem modsRev_succ (a i : Nat) : modsRev a (i + 1) = (a % base[i]!) :: modsRev a i := by
+  simp [modsRev, List.range_succ]
+
+theorem dvd_baseProd (i : Nat) : ∀ n j, j < n → base[i + j]! ∣ baseProd i n := by
+  intro n
+  induction n with
+  | zero => intro j h; omega
+  | succ n ih =>
+    intro j h
+    by_cases hj : j = n
+    · subst hj; exact Nat.dvd_mul_left _ _
+    · exact Nat.dvd_trans (ih j (by omega)) (Nat.dvd_mul_right _ _)
+
+theorem inner_spec (a prod count : Nat) : ∀ num i, (∀ j, j < num → base[i + j]! ∣ prod) → i ≤ count →
+    baseModInner (a % prod) count num i (modsRev a i) = (min (i + num) count, modsRev a (min (i + num) count)) := by
+  intro num
+  induction num with
+  | zero => intro i _ hi; simp [baseModInner, Nat.min_eq_left hi]
+  | succ num ih =>
+    intro i hd hi
+    simp only [baseModInner]
+    by_cases hic : i < count
+    · rw [if_pos hic]
+      have h0 : a % prod % base[i]! = a % base[i]! := Nat.mod_mod_of_dvd a (by simpa using hd 0 (by omega))
+      rw [h0, ← modsRev_succ, ih (i + 1) (fun j hj => by
+        have := hd (j + 1) (by omega)
+        rwa [show i + (j + 1) = i + 1 + j by omega] at this) (by omega)]
+      rw [show i + 1 + num = i + (num + 1) by omega]
+    · rw [if_neg hic]
+      have : min (i + (num + 1)) count = i := by omega
+      rw [this]
+
+theorem prods_stop (a count : Nat) (l : List (Nat × Nat)) (acc : List Nat) :
+    baseModProds a count l count acc = (count, acc) := by
+  cases l with
+  | nil => rfl
+  | cons e rest => obtain ⟨p, n⟩ := e; simp [baseModProds]
+
+theorem prods_spec (W a count : Nat) : ∀ l i, AlignedAt W l i → i ≤ count →
+    ∃ i', baseModProds a count l i (modsRev a i) = (i', modsRev a i') ∧ i' ≤ count := by
+  intro l
+  induction l with
+  | nil => intro i _ hi; exact ⟨i, rfl, hi⟩
+  | cons e rest ih =>
+    intro i hal hi
+    obtain ⟨prod, num⟩ := e
+    obtain ⟨_, _, hprod, hrest⟩ := hal
+    simp only [baseModProds]
+    by_cases hic : i < count
+    · rw [if_pos hic, inner_spec a prod count num i (fun j hj => hprod ▸ dvd_baseProd i num j hj) hi]
+      simp only
+      by_cases hle : i + num ≤ count
+      · rw [Nat.min_eq_left hle]
+        exact ih (i + num) hrest hle
+      · rw [Nat.min_eq_right (by omega), prods_stop]
+        exact ⟨count, rfl, Nat.le_refl _⟩
+    · rw [if_neg hic]
+      exact ⟨i, rfl, hi⟩
+
+theorem rest_spec (a count : Nat) : ∀ fuel i, i ≤ count → count - i ≤ fuel →
+    baseModRest a count fuel i (modsRev a i) = modsRev a count := by
+  intro fuel
+  induction fuel with
+  | zero =>
+    intro i h1 h2
+    have : i = count := by omega
+    subst this; rfl
+  | succ fuel ih =>
+    intro i h1 h2
+    simp only [baseModRest]
+    by_cases hic : i < count
+    · rw [if_pos hic, ← modsRev_succ, ih (i + 1) (by omega) (by omega)]
+    · rw [if_neg hic]
+      have : i = count := by omega
+      subst this; rfl
+
+end SieveAux
+
+/-- priBaseMod returns a mod base[0], …, a mod base[count − 1] (the shortcut through `_prods` is exact) -/
+theorem priBaseMod_spec (W a count : Nat) (hW : W = 16 ∨ W = 32 ∨ W = 64) (_hc : count ≤ 1024) :
+    priBaseMod W a count = (List.range count).map (fun i => a % base[i]!) := by
+  unfold priBaseMod
+  obtain ⟨i', h, hi'⟩ := SieveAux.prods_spec W a count _ 0 (prods_aligned W hW) (Nat.zero_le _)
+  have h0 : SieveAux.modsRev a 0 = [] := rfl
+  rw [h0] at h
+  rw [h]
+  simp only
+  rw [SieveAux.rest_spec a count count i' hi' (by omega)]
+  simp [SieveAux.modsRev]
+
+example : priBaseMod 32 1000003 12 = [1, 3, 4, 4, 4, 12, 14, 9, 25, 5, 4, 13] := by decide +kernel
+
+/-! ### C4: priIsSieved -/
+
+namespace SieveAux
+
+theorem adjust_le (a : Nat) (d : Bool) : ∀ bc, adjustBaseCount a d bc ≤ bc := by
+  intro bc
+  induction bc with
+  | zero => simp [adjustBaseCount]
+  | succ bc ih =>
+    simp only [adjustBaseCount]
+    split
+    · omega
+    · omega
+
+/-- the dropped primes exceed a -/
+theorem adjust_dropped (a : Nat) : ∀ bc i, adjustBaseCount a false bc ≤ i → i < bc → a < base[i]! := by
+  intro bc
+  induction bc with
+  | zero => intro i _ h; omega
+  | succ bc ih =>
+    intro i h1 h2
+    simp only [adjustBaseCount, Bool.false_eq_true, false_and, or_false] at h1
+    by_cases hgt : base[bc]! > a
+    · rw [if_pos hgt] at h1
+      by_cases hi : i = bc
+      · subst hi; exact hgt
+      · exact ih i h1 (by omega)
+    · rw [if_neg hgt] at h1
+      omega
+
+/-- all the dropped ones are at the end: what remains are exactly the base primes ≤ a (sortedness) -/
+theorem adjust_kept (a : Nat) : ∀ bc, bc ≤ 1024 → ∀ i, i < adjustBaseCount a false bc → base[i]! ≤ a := by
+  intro bc
+  induction bc with
+  | zero => intro _ i h; simp [adjustBaseCount] at h
+  | succ bc ih =>
+    intro hbc i h
+    simp only [adjustBaseCount, Bool.false_eq_true, false_and, or_false] at h
+    by_cases hgt : base[bc]! > a
+    · rw [if_pos hgt] at h
+      exact ih (by omega) i h
+    · rw [if_neg hgt] at h
+      by_cases hi : i = bc
+      · subst hi; omega
+      · have := base_sorted i bc (by omega) (by omega)
+        omega
+
+end SieveAux
+
+/-- priIsSieved: a is odd and no prime of the factor base (first `bc` entries) divides it.
+    (The adjustment for one-word a only drops primes > a, which cannot divide an odd a ≥ 1.  A base prime itself
+    is NOT sieved: a mod a = 0.) -/
+theorem priIsSieved_iff (W a bc : Nat) (hW : W = 16 ∨ W = 32 ∨ W = 64) (hbc : bc ≤ 1024) :
+    priIsSieved W a bc = true ↔ a % 2 = 1 ∧ ∀ i, i < bc → a % base[i]! ≠ 0 := by
+  unfold priIsSieved
+  by_cases h2 : a % 2 = 0
+  · simp [h2]
+  · have hodd : a % 2 = 1 := by omega
+    rw [if_neg h2]
+    simp only [hodd, true_and]
+    have hle : (if a < 2 ^ W then adjustBaseCount a false bc else bc) ≤ bc := by
+      split
+      · exact SieveAux.adjust_le a false bc
+      · exact Nat.le_refl _
+    rw [priBaseMod_spec W a _ hW (by omega)]
+    simp only [List.all_eq_true, List.mem_map, List.mem_range, decide_eq_true_eq, ne_eq,
+      forall_exists_index, and_imp]
+    constructor
+    · intro h i hi
+      by_cases hin : i < (if a < 2 ^ W then adjustBaseCount a false bc else bc)
+      · exact h _ i hin rfl
+      · by_cases hw : a < 2 ^ W
+        · rw [if_pos hw] at hin
+          have hgt := SieveAux.adjust_dropped a bc i (by omega) hi
+          rw [Nat.mod_eq_of_lt hgt]
+          omega
+        · rw [if_neg hw] at hin; omega
+    · intro h x i hi hx
+      subst hx
+      exact h i (by omega)
+
+/-- the form with the adjustment visible: for one-word a only the base primes ≤ a are tried -/
+theorem priIsSieved_iff' (W a bc : Nat) (hW : W = 16 ∨ W = 32 ∨ W = 64) (hbc : bc ≤ 1024) :
+    priIsSieved W a bc = true ↔
+      a % 2 = 1 ∧ ∀ i, i < bc → (a < 2 ^ W → base[i]! ≤ a) → a % base[i]! ≠ 0 := by
+  rw [priIsSieved_iff W a bc hW hbc]
+  constructor
+  · rintro ⟨h1, h⟩; exact ⟨h1, fun i hi _ => h i hi⟩
+  · rintro ⟨h1, h⟩
+    refine ⟨h1, fun i hi => ?_⟩
+    by_cases hle : a < 2 ^ W → base[i]! ≤ a
+    · exact h i hi hle
+    · have : a < base[i]! := by omega
+      rw [Nat.mod_eq_of_lt this]; omega
+
+example : priIsSieved 32 1000003 40 = true ∧ priIsSieved 32 1000001 40 = false ∧
+    priIsSieved 16 173 40 = false ∧ priIsSieved 16 169 4 = true ∧ priIsSieved 16 169 5 = false := by decide +kernel
 
 end Bee2V.C12
